@@ -488,6 +488,8 @@ class Parser:
         parameter in a routine. The symbol has global scope, even if it is
         defined inside a routine.
         """
+        if self._context.has_symbol_typed(name, SymbolType.MACRO):
+            return self.trigger_error('Already defined: "{}"'.format(name))
         value = self._current_literal()
         if value is None:
             inner_macro = self._context.get_macro(str(self._current_token))
